@@ -26,6 +26,11 @@ claim('C08', 'proof',
  "trusted: Coq kernel, extraction (fast driver, cross-checked against pure), harness; the size of the row noise is C07's subject",
  "DESIGN.md section 4, C08")
 
+claim('C11', 'proof',
+ "Coq theorems for every N>=1 (every power of two for Karatsuba) and every coefficient value: Z^N with the negacyclic shift is a commutative associative ring with unit whose product is the C loops' convolution formula; the schoolbook routine (plain/accumulate/subtract) equals it mod 2^32; the Karatsuba routine (cut-off h<=4, 2N-1 buffer, manual clearing of the middle cell, reduction) equals the plain product and hence the ring product mod 2^32; X^a and X^a-1 for every a in [0,2N) equal the a-fold shift with every access in range; X^a X^b = X^((a+b) mod 2N), X^N=-1; coefficient-wise operations for every p; tied to the code by exact comparison at N in {1..2048}, all a for N<=64, exhaustive basis pairs for N<=16, extreme vectors, both builds",
+ "trusted: Coq kernel, extraction (fast driver cross-checked against pure), harness; Karatsuba's scratch-buffer layout is modelled functionally (its byte budget is C16's subject)",
+ "DESIGN.md section 4, C11")
+
 NA_REASON = "check not built yet in this revision (work in progress; DESIGN.md section 8 gives the order)"
 checks = []
 for p in props:
